@@ -722,6 +722,20 @@ func S9(rc *RC) {
 			if masked && !have[view+".mask = $r.mask["+s+":"+e+"]"] {
 				bad = append(bad, "a masked source's mask is not sliced with the data window")
 			}
+			// a view handed in for reuse (a parameter) keeps nothing of its previous life: the saved
+			// access pattern and permutation of a pending lazy transpose are dropped, and so is
+			// its mask when the new source has none (finding 82)
+			if strings.HasPrefix(view, "$") {
+				if !have[view+".old.zero()"] && !have[view+".old.zeroOnly()"] && !have[view+".old = tensor.AP{}"] {
+					bad = append(bad, "the reused view's saved access pattern (old) is not cleared")
+				}
+				if !have[view+".transposeWith = nil"] && !p.Has("!("+view+".transposeWith != nil)") && !p.Has("("+view+".transposeWith == nil)") {
+					bad = append(bad, "the reused view's saved permutation (transposeWith) is not cleared")
+				}
+				if !masked && !have[view+".mask = nil"] {
+					bad = append(bad, "the reused view keeps its previous mask when the source is not masked")
+				}
+			}
 			if !strings.HasPrefix(p.Ret, view) {
 				bad = append(bad, "returns "+p.Ret+" instead of the view")
 			}
